@@ -4,6 +4,7 @@
 (* GoalReachedV / IndexOk of Goal.tla.                                             *)
 (*   {op: "is_reached",   goal, state, res: "T" | "F" | "exc:<Type>", sig}         *)
 (*   {op: "goal_reached", goal, traj,  res: "T" | "F" | "exc:<Type>", idx, sig}    *)
+(*   {op: "moved_is_reached" / "moved_goal_reached", ..., mv: [t, q], via, warm}   *)
 EXTENDS Goal, IOUtils
 Traces == ndJsonDeserialize(IOEnv.TRACE_FILE)
 
@@ -24,6 +25,20 @@ Clause(e) ==
          ELSE LET x == GoalReachedV(e.goal, e.traj) IN
               IF x # "EITHER" /\ e.res # x THEN "C08.GoalReached/verdict"
               ELSE IF e.res = "T" /\ ~IndexOk(e.goal, e.traj, e.idx) THEN "C08.GoalReached/index"
+              ELSE ""
+    (* moved goal: the region was moved by e.mv through GoalRegion / PlanningProblem(Set).translate_rotate (e.via), after *)
+    (* a first query (e.warm = 1) or without one; e.goal is the goal as BUILT, the expectation is Reached on the MOVED goal *)
+    [] e.op = "moved_is_reached" ->
+         IF ~Admissible(e.goal, e.state) \/ ~AdmMove(e.mv) THEN "driver/inadmissible-input"
+         ELSE IF e.res \notin {"T", "F"} THEN "C08.Total/moved"
+         ELSE LET x == MovedReached(e.goal, e.mv, e.state) IN
+              IF x # "EITHER" /\ e.res # x THEN "C08.Reached/moved" ELSE ""
+    [] e.op = "moved_goal_reached" ->
+         IF (\E i \in DOMAIN e.traj : ~Admissible(e.goal, e.traj[i])) \/ ~AdmMove(e.mv) THEN "driver/inadmissible-input"
+         ELSE IF e.res \notin {"T", "F"} THEN "C08.Total/moved"
+         ELSE LET x == MovedGoalReachedV(e.goal, e.mv, e.traj) IN
+              IF x # "EITHER" /\ e.res # x THEN "C08.GoalReached/moved-verdict"
+              ELSE IF e.res = "T" /\ ~MovedIndexOk(e.goal, e.mv, e.traj, e.idx) THEN "C08.GoalReached/moved-index"
               ELSE ""
     [] OTHER -> "machinery/unknown-op"
 
